@@ -1101,9 +1101,18 @@ def copy_checks(ctx, worker, rng, n):
                 h.apply(op)
             snap = snapshot(h.rootb)
             d1, e1, _ = worker.hash(h.root)
-            other = os.path.join(h.base, "copy")
-            os.mkdir(other)
+            # the copy lives one level deeper, and what the top-level links pointing out of the tree ("../x") resolve
+            # to exists there as a directory while it does not exist for the original: the hash must not depend on it
+            other = os.path.join(h.base, "ctx2", "copy")
+            os.makedirs(other)
             rebuild(os.fsencode(other), snap, rng)
+            for lp, le in all_paths(snap):
+                if le["kind"] == "l" and b"/" not in lp and le["data"].startswith(b"../") and b".." not in le["data"][3:] and le["data"][3:]:
+                    try:
+                        os.makedirs(os.path.join(os.fsencode(h.base), b"ctx2", le["data"][3:]), exist_ok=True)
+                        ctx.count("copy-check:outside-link-target-exists-for-copy-only")
+                    except OSError:
+                        pass
             # noise that must not matter
             os.makedirs(os.path.join(other, ".git", "objects"), exist_ok=True) if not os.path.lexists(os.path.join(other, ".git")) else None
             d2, e2, _ = worker.hash(other)
